@@ -11,4 +11,5 @@ CONSTANTS
   Depth = 5
   Loop = TRUE
   AddGate = FALSE
+  MaxHeal = 1
 CHECK_DEADLOCK FALSE
